@@ -106,8 +106,8 @@ Definition render (s : snip) : string :=
   | SnSyntax pre => (if pre then "fn h() { return 0; } " else "") ++ "var = ;"
   | SnThrow w d =>
       match d with Some (g, z) => "var " ++ gname_s g ++ " = " ++ show_Z z ++ "; " | None => "" end ++ render_where w
-  | SnTryFin => "try { print(""t""); } finally { print(""f""); }"
-  | SnTryCatch => "try { throw 7; } catch e { print(e); }"
+  | SnTryFin => "try { print(""t""); } finally { print(""f""); } print(""after"");"
+  | SnTryCatch => "try { throw 7; } catch e { print(e); } print(""after"");"
   | SnFiberOk => "print(Fiber.new(|| { return 5; }).call());"
   | SnCaptureOk => "var c = nil; (|| { var x = 42; c = || x; })();"
   | SnRange k => "for i in 0.." ++ show_nat (depth_nat k) ++ " { print(i); }"
